@@ -50,3 +50,10 @@ Qed.
 
 Corollary to_union_is_spec s0 l : to_union s0 l = spec_union s0 l.
 Proof. apply union_fold_spec. lia. Qed.
+
+Lemma to_join_nest first rest : to_join_call (nest first rest) = first :: rest.
+Proof. revert first. induction rest as [|r rs IH]; intros first; simpl; [reflexivity|]. rewrite IH. reflexivity. Qed.
+
+(* every source written in FROM is in the list, once, in the order written - for runs of any length *)
+Theorem from_list_spec t0 runs : from_list t0 runs = t0 :: List.concat (map (fun r => fst r :: snd r) runs).
+Proof. unfold from_list. f_equal. f_equal. apply map_ext. intros [a l]. apply to_join_nest. Qed.
